@@ -363,7 +363,10 @@ class Gen(object):
                 pre.append({'t': 'select_from', 'card': 'many', 'v': sn, 'k': c, 'haswhere': False, 'w': B(True)})
                 sets = [(sn, c)]
             sn, c = r.choice(sets)
-            iv = self.fresh('inst:' + c, 'e')
+            # the loop variable is new, or a visible instance variable of that class bound further out (an earlier loop
+            # variable, a created or selected instance): the binding is updated where it is
+            old = [n for sc in self.scopes for n, t in sc.items() if t == 'inst:' + c]
+            iv = r.choice(old) if old and r.random() < 0.4 else self.fresh('inst:' + c, 'e')
             self.scopes.append({})
             self.ok.append({iv})
             self.loops += 1
@@ -576,8 +579,38 @@ class Gen(object):
             body.append({'t': 'relate', 'a': r.choice(As), 'b': r.choice(Bs), 'rel': 'R3', 'ph': '', 'using': l})
         return body
 
-    def program(self, nstmts=None, final_return=True, setup=False):
+    def loop_patterns(self):
+        """loops that re-bind a variable bound further out: the same loop variable again at a deeper nesting level, and again
+        after a loop that was left by break / skipped by continue; every loop acts through its variable"""
+        r = self.rnd
+        sn, t, x = self.fresh('set:A', 's'), self.fresh('int', 't'), self.fresh('inst:A', 'x')
+        xn = Field(V(x), 'N')
+        out = [{'t': 'select_from', 'card': 'many', 'v': sn, 'k': 'A', 'haswhere': False, 'w': B(True)}, Assign(V(t), I(0))]
+        first = [Assign(V(t), Bin('+', V(t), xn))]
+        if r.random() < 0.6:
+            first.insert(0, If(Bin(r.choice(['>', '<', '==']), xn, I(r.randint(0, 4))), [{'t': r.choice(['break', 'continue'])}], [], None))
+        out.append({'t': 'for', 'v': x, 's': sn, 'b': first})
+        inner = {'t': 'for', 'v': x, 's': sn, 'b': [Assign(xn, Bin('+', xn, I(r.randint(1, 3)))),
+                                                       Assign(V(t), Bin('+', Bin('*', V(t), I(2)), xn))]}
+        k = r.randint(0, 3)
+        if k == 0:
+            out.append(If(Bin('>=', V(t), I(0)), [inner], [], None))
+        elif k == 1:
+            c = self.fresh('int', 'c')
+            out += [Assign(V(c), I(r.randint(1, 2))),
+                    {'t': 'while', 'c': Bin('>', V(c), I(0)), 'b': [Assign(V(c), Bin('-', V(c), I(1))), inner]}]
+        elif k == 2:
+            y = self.fresh('inst:A', 'y')
+            out.append({'t': 'for', 'v': y, 's': sn, 'b': [If(Bin('>', Field(V(y), 'N'), I(r.randint(0, 3))), [{'t': 'continue'}], [], None),
+                                                            inner]})
+        else:
+            out.append(inner)
+        return out
+
+    def program(self, nstmts=None, final_return=True, setup=False, patterns=False):
         body = self.setup() if setup else []
+        if patterns:
+            body += self.loop_patterns()
         for _ in range(nstmts or self.rnd.randint(2, 6)):
             s = self.stmt(0)
             if s is not None:
